@@ -127,6 +127,22 @@ def _script_of(rec):
     return p.stdout.strip().replace("\n", " ;; ")
 
 
+def _shape(rec, ev):
+    """Names the one input shape that has a known finding: the shell signals a job whose
+    first process has not yet run since the fork and still has the dispositions of the
+    interactive shell (so the signal is ignored instead of acting on the job)."""
+    if not ev or not rec["scn"]["i"]:
+        return ""
+    ps = {p["n"]: p for p in ev["sn"]["ps"]}
+    shell = ps.get("s")
+    for c in ev.get("calls", []):
+        if c["c"] == "kill" and c["by"] == "s" and c["sig"] not in ("CONT", "KILL", "STOP"):
+            t = ps.get(c["t"])
+            if t and shell and t["st"] == "R" and t["dp"] == shell["dp"] and t["dp"] != ["D"] * 5:
+                return "signal for a job whose process still has the interactive shell's dispositions"
+    return ""
+
+
 def _report(rep, bad, what):
     for rec, v in bad:
         scn = rec["scn"]
@@ -134,7 +150,7 @@ def _report(rep, bad, what):
         ev = rec["ev"][at - 1] if 0 < at <= len(rec["ev"]) else {}
         key = {"why": v["why"], "id": scn.get("id", 0), "m": scn["m"], "i": scn["i"], "enf": scn.get("enf", False),
                "cf": rec.get("cf", False), "script": _script_of(rec), "env": ",".join(scn.get("env", [])),
-               "outcome": rec["outcome"], "who": ev.get("w", "")}
+               "outcome": rec["outcome"], "who": ev.get("w", ""), "shape": _shape(rec, ev)}
         detail = (f"{what}: run not accepted by spec/Trace_ProcGroups.tla at event {at} ({v['why']}); "
                   f"monitor={scn['m']} interactive={scn['i']} script: {key['script']}")
         rep.violation(key, detail, {"scn": scn, "sched": rec.get("sched", {}), "record": rec, "verdict": v})
